@@ -508,6 +508,7 @@ func init() {
 			{Name: "assignments", N: func(c *Ctx) int { return tierN(c, 20000, 1000000) }, Run: c14Run},
 			{Name: "dyadic-deep", N: func(c *Ctx) int { return tierN(c, 6000, 600000) }, Run: c14DyadicDeep},
 			{Name: "shortest-repr", N: func(c *Ctx) int { return tierN(c, 1500, 150000) }, Run: c14Shortest},
+			{Name: "float-quotients", N: func(c *Ctx) int { return tierN(c, 1500, 150000) }, Run: c14Quotients},
 			{Name: "precise", N: func(c *Ctx) int { return len(c14Precise) * len(c14PreciseTemplates) }, Run: c14PreciseRun, Exhaustive: true},
 			{Name: "boundary", N: func(c *Ctx) int { return len(c14Big) * len(c14BigTemplates) }, Run: c14Boundary, Exhaustive: true},
 		},
@@ -604,5 +605,112 @@ func c14Shortest(c *Ctx, idx int) {
 			}
 		}
 		c.Nontrivial(text)
+	}
+}
+
+// c14Quotients: // and % where a float division would round across an integer.  Operands and exact
+// results are integers or short dyadic fractions that every carrier holds exactly; only the
+// *internal* quotient x/y is not a float.  Case A: quotients in [2^50, 2^53) with a non-zero
+// remainder (the spacing of floats there is 1/4 .. 1, so x/y rounds to the next integer).  Case B: x
+// just below a multiple of y (the quotient is an integer minus a few ulps).  Every carrier pair must
+// give what exact arithmetic gives.
+func c14Quotients(c *Ctx, idx int) {
+	r := c.Rand("")
+	var xf, yf float64
+	ok := false
+	for try := 0; try < 100 && !ok; try++ {
+		if idx%2 == 0 {
+			y := float64(gen.Pick(r, []int{3, 5, 7, 9, 11, 13, 33, 99, 1001, -3, -7}))
+			sh := uint(50 + r.Intn(3))
+			k := float64(uint64(1)<<sh + uint64(r.Intn(1<<20))<<uint(r.Intn(30)))
+			rem := float64(1 + r.Intn(int(math.Abs(y))-1))
+			x := k*math.Abs(y) + rem
+			if r.Chance(30) {
+				x = -x
+			}
+			xf, yf = x, y
+		} else {
+			y := gen.Pick(r, []float64{3, 7, 1.5, 0.75, 12, 100, 2.5, 6, 24, -3, -1.5})
+			k := float64(int64(1)<<uint(30+r.Intn(12)) + int64(r.Intn(1<<16)))
+			x := math.Nextafter(k*math.Abs(y), 0)
+			if r.Chance(30) {
+				x = -x
+			}
+			xf, yf = x, y
+		}
+		// both operands must be what we think they are: floats whose exact expansion has <= 34 digits
+		xs := strings.TrimRight(strings.TrimRight(new(big.Float).SetFloat64(xf).Text('f', 60), "0"), ".")
+		ys := strings.TrimRight(strings.TrimRight(new(big.Float).SetFloat64(yf).Text('f', 60), "0"), ".")
+		if len(strings.NewReplacer("-", "", ".", "").Replace(xs)) <= 34 && len(ys) < 20 && !math.IsInf(xf, 0) {
+			ok = true
+		}
+	}
+	if !ok {
+		return
+	}
+	xs := strings.TrimRight(strings.TrimRight(new(big.Float).SetFloat64(xf).Text('f', 60), "0"), ".")
+	ys := strings.TrimRight(strings.TrimRight(new(big.Float).SetFloat64(yf).Text('f', 60), "0"), ".")
+	if !strings.Contains(xs, ".") {
+		xs = strings.TrimRight(xs, ".")
+	}
+	carrier := func(f float64, s string, kind int) any {
+		switch kind {
+		case 1:
+			return f
+		case 2:
+			if d, err := decimal128.Parse(s); err == nil {
+				return d
+			}
+		case 3:
+			if f == math.Trunc(f) && math.Abs(f) < 1<<62 {
+				return int64(f)
+			}
+		case 4:
+			if float64(float32(f)) == f {
+				return float32(f)
+			}
+		}
+		return json.Number(s)
+	}
+	sameSign := (xf < 0) == (yf < 0)
+	templates := []string{"a // b", "[a // b]", "a // b == `Q`", "a // b // `1`", "let $q = a // b in $q", "xs[0] // xs[1]", "map(&(@ // $.b), [a])", "a % b", "[a % b, a // b]"}
+	// the exact truncated quotient, for the literal in the third template
+	q := new(big.Rat).Quo(gen.Num(xs).R, gen.Num(ys).R)
+	qi := new(big.Int).Quo(q.Num(), q.Denom())
+	for _, tm := range templates {
+		text := strings.ReplaceAll(tm, "Q", qi.String())
+		var base LibOut
+		for ka := 0; ka <= 4; ka++ {
+			for kb := 0; kb <= 4; kb++ {
+				if ka != kb && ka != 0 && kb != 0 && (ka+kb+idx)%3 != 0 {
+					continue
+				}
+				av, bv := carrier(xf, xs, ka), carrier(yf, ys, kb)
+				data := map[string]any{"a": av, "b": bv, "xs": []any{av, bv}}
+				l := c.LibSearch(text, data)
+				if l.Panic != nil {
+					continue
+				}
+				if ka == 0 && kb == 0 {
+					base = l
+					continue
+				}
+				if !SameOutcome(base, l, false) {
+					c.Report(Violation{Rule: "C14/representation-dependent", Expr: text, Data: gen.Describe(data), Got: ShowOut(l), Want: ShowOut(base) + "  (a, b as json.Number " + xs + ", " + ys + ")", Features: map[string]string{"stream": "float-quotients", "template": tm}})
+				}
+			}
+		}
+		if sameSign || !strings.Contains(text, "%") {
+			doc := ref.NewObj()
+			doc.Set("a", gen.Num(xs))
+			doc.Set("b", gen.Num(ys))
+			doc.Set("xs", &ref.Arr{E: []ref.V{gen.Num(xs), gen.Num(ys)}})
+			if m := ref.Search(text, doc); !m.Unspec {
+				if judged, okk, why := Agree(m, base); judged && !okk {
+					c.Report(Violation{Rule: "C14/model", Expr: text, Data: "a = " + xs + ", b = " + ys, Got: ShowOut(base), Want: m.String(), Detail: why, Features: map[string]string{"stream": "float-quotients"}})
+				}
+			}
+		}
+		c.Nontrivial(text, xs, ys)
 	}
 }
